@@ -143,9 +143,52 @@ MISSED = {
     "C20-10": "scalar() was observed on fresh Python values only; added arrays built at import time / during the previous observation",
     "C20-11": "all temporary factory managers had the same operators; two of them now know `//` and Function.format_infix is observed",
     "C20-12": "term printing (height omitted when close to 1) was not among the helpers; added",
+    # ---- fifth round (ids 13..15) ----
+    "C01-13": "caught by C07 at once; C01 itself loaded every rule once; every loaded rule is now loaded a second time",
+    "C01-15": "caught by C12 at once; C01 had no locked output range with a weighted value outside it; added to space G",
+    "C03-14": "no negative Spike width; added",
+    "C03-15": "no range so wide / narrow that its square overflows / underflows; added S-, Z- and Pi-shapes over 1e200 and 1e-170",
+    "C05-13": "the registered hedges were read from an unpolluted registry; other HedgeFactory / FactoryManager instances now register foreign hedges first",
+    "C05-14": "the registered hedges were read from an unpolluted registry; other HedgeFactory / FactoryManager instances now register foreign hedges first",
+    "C06-13": "the rule triggered after evaluation had a hedged first conclusion; it now starts with a plain one (which receives the rule's own degree array)",
+    "C06-14": "caught by C08 (stored degree of a disabled rule), not by C06",
+    "C06-15": "caught by C08 (stored degrees under First), not by C06",
+    "C07-14": "no rule `with 0`; added",
+    "C07-15": "components were given to the Engine constructor as lists; added one-shot iterables",
+    "C08-14": "rules were unloaded through Rule.unload() only; added a rule that loses its antecedent after an activation left it triggered",
+    "C08-15": "every antecedent was a single proposition; now `t or <always 0>` / `t and <always 1>`",
+    "C09-13": "no range of huge magnitude; added the midpoint check on [0, 1e306], [-8e307, 8e307], [-1e306, 1e306]",
+    "C09-14": "implications were the built-in (commutative) T-norms; added a user-defined non-commutative NormLambda",
+    "C09-15": "no zero-width range; added [2, 2]",
+    "C10-13": "degrees were floats; added Python ints and a bool array",
+    "C10-14": "no degrees whose product underflows; added 1e-200",
+    "C10-15": "a norm rounding-boundary slip (a < 1-b instead of a+b < 1): caught by C04 after operand symmetry at decimal complements was added, not by C10",
+    "C11-13": "no ramp narrower than the comparison tolerance; added widths 5e-4 and 2^-12",
+    "C11-14": "refusals were checked per class; degenerate instances (zero slope / width) now have to do what THEY declare",
+    "C11-15": "vertical edges were skipped; a term that declares itself monotonic must at least answer without raising (Python and numpy parameters)",
+    "C13-14": "every block owned its activation object; added an engine sharing one Highest(3) object between two two-rule blocks",
+    "C13-15": "no term whose membership is the input array itself; added Function `x` under a weighted rule and an inputs-untouched clause",
+    "C14-13": "engines were exported before they were ever used, each output owning its defuzzifier; now processed once and exported again, plus shared-instance engines",
+    "C14-14": "ranges were ascending; added descending and zero-width ranges to the deviations",
+    "C15-13": "every engine owned fresh components; added an engine built from another engine's output variables",
+    "C15-14": "every output owned its defuzzifier; added the shared-instance engines of C01's space G",
+    "C15-15": "needs a non-zero relative tolerance: caught by C20 once Rule.text joined its formatting helpers, not by C15",
+    "C16-13": "an imported engine was only processed when it reported ready; now always (only clean value errors are allowed)",
+    "C16-14": "a text parsed into an already loaded rule was only examined when the load failed; it must now agree with a fresh rule",
+    "C17-14": "formulas were separated by blanks only; added tabs and newlines",
+    "C17-15": "Function terms always had height 1; the value must not depend on the height attribute",
+    "C18-13": "terms were never replaced after the rules were loaded; added",
+    "C18-14": "reader rows were single-blank separated and exported with the default separator; added tabs, several blanks and other separators",
+    "C18-15": "one unit in the last digit was tolerated for every cell and no grid step ended in 5 below the precision; input cells are now exact and fine grids were added",
+    "C19-13": "truncated antecedents had two propositions; added single-proposition ones",
+    "C19-14": "activation methods were built through their constructors; the forward direction now also runs on engines re-imported from their FLL text",
+    "C19-15": "operators were given to the constructors; added engines set up through Engine.configure by name",
+    "C20-13": "contexts were always created where they were entered; nestings now create their context objects up front",
+    "C20-14": "Op.is_close pairs were symmetric with respect to the relative tolerance; added pairs between rtol*|a| and rtol*|b|",
+    "C20-15": "contexts were opened on the library-wide settings only; added another Settings object",
 }
 # changes that belong to another property's mechanism: the check that catches them
-EXTRA = {"C05-5": ["C20"], "C18-12": ["C20"]}
+EXTRA = {"C05-5": ["C20"], "C18-12": ["C20"], "C06-14": ["C08"], "C06-15": ["C08"], "C10-15": ["C04"], "C15-15": ["C20"]}
 results = []
 for d in sorted(os.listdir(SRC)):
     m = re.match(r"out_(C\d+)$", d)
